@@ -1,5 +1,8 @@
 \* C09 exhaustive design check. Lifetimes are remaining ticks, so histories of any length are
 \* covered; MaxReg bounds how often one tunnel id is registered.
+\*   MODE = atomic | split (call-site steps)
+\*   LF = FALSE (as-is: lifecycle started after the registration)  INVS = LookupGone NoDev
+\*   LF = TRUE  (lifecycle started first)                          INVS = LookupGoneOrDev
 CONSTANTS
   Nodes = @@NODES@@
   Tunnels = @@TUNNELS@@
@@ -8,9 +11,12 @@ CONSTANTS
   MaxClock = 1000
   MaxHist = 99
   Shapes = {"identity", "jsonString", "jsonMap"}
+  Mode = "@@MODE@@"
+  LifecycleFirst = @@LF@@
   Emit = FALSE
+  Only = "all"
 INIT Init
 NEXT Next
 VIEW view
-INVARIANTS TypeOK LookupExact LookupGone
+INVARIANTS TypeOK LookupExact @@INVS@@
 CHECK_DEADLOCK FALSE
